@@ -25,6 +25,7 @@ mod lists_corr;
 mod strings_corr;
 mod optin_corr;
 mod optin_inproc;
+mod optin_e2e;
 mod corpus;
 mod gen;
 mod sweep;
